@@ -281,7 +281,8 @@ theorem inv_packet {b : B} (h : Inv b) (c : Nat) (p : Packet) : Inv (packet b c 
 
 theorem inv_step {b : B} (h : Inv b) (e : Ev) : Inv (step b e).1 := by
   cases e with
-  | first c f a => exact inv_first h c f a
+  | first c f a =>
+    exact Mqtt.Proofs.Connect.connect_state Inv (fun b c h => inv_stop h c) (fun b c f a h => inv_first h c f a) b c f a h
   | packet c p => exact inv_packet h c p
   | close c => exact inv_stop h c
   | srvPub p =>
